@@ -543,6 +543,10 @@ def _tail_returns_only(body):
                 return False
             if has and not (_tail_returns_only(s.body) and _tail_returns_only(s.orelse)):
                 return False
+        elif isinstance(s, ast.Try) and last and not s.finalbody and not s.orelse:
+            # `try: return E  except X: ...; return E2` as the last statement: tail returns in the body and every handler
+            if not (_tail_returns_only(s.body) and all(_tail_returns_only(h.body) for h in s.handlers)):
+                return False
         elif any(isinstance(n, ast.Return) for n in ast.walk(s)):
             return False
     return True
@@ -568,6 +572,8 @@ def _always_returns(body):
     last = body[-1]
     if isinstance(last, (ast.Return, ast.Raise)):
         return True
+    if isinstance(last, ast.Try) and not last.finalbody and not last.orelse:
+        return _always_returns(last.body) and all(_always_returns(h.body) for h in last.handlers)
     if isinstance(last, ast.If):
         return bool(last.orelse) and _always_returns(last.body) and _always_returns(last.orelse)
     return False
@@ -582,6 +588,13 @@ def _replace_returns(body, make):
         elif isinstance(s, ast.If):
             out.append(ast.copy_location(ast.If(test=s.test, body=_replace_returns(s.body, make) or [ast.Pass()],
                                                 orelse=_replace_returns(s.orelse, make)), s))
+        elif isinstance(s, ast.Try) and s is body[-1] and not s.finalbody and not s.orelse and \
+                any(isinstance(n, ast.Return) for n in ast.walk(s)):
+            hs = [ast.copy_location(ast.ExceptHandler(type=h.type, name=h.name,
+                                                      body=_replace_returns(h.body, make) or [ast.Pass()]), h)
+                  for h in s.handlers]
+            out.append(ast.copy_location(ast.Try(body=_replace_returns(s.body, make) or [ast.Pass()], handlers=hs,
+                                                 orelse=[], finalbody=[]), s))
         else:
             out.append(s)
     return out
